@@ -37,6 +37,7 @@ MANIFEST = {
             'rendered untainted), plus all written orders of 2 and 3 of 9 '
             'modifiers; the output must contain no "<" other than the '
             '<br /> that newline_to_br inserts, and never "&amp;lt;".',
+    'more': 'Also: tainted values handed positionally and by keyword to the wrapped string helpers (StringModuleWrapper / StringFunctionWrapper); a carrier with non-ASCII letters, digits and blanks.',
     'note': 'Trusted: AccessControl.tainted.TaintedString as the taint mark; '
             'the author-supplied texts (etc, null, missing) contain no "<". '
             'structured-text formats (markup generators) are only required '
